@@ -531,6 +531,8 @@ type serverConn struct {
 	// Owned by the writeFrames goroutine:
 	headerWriteBuf bytes.Buffer
 	hpackEncoder   *hpack.Encoder
+	// SETTINGS_HEADER_TABLE_SIZE values received while a frame write was in flight
+	pendingEncoderTableSizes []uint32
 
 	// how long to wait when there is no request processing on the connection
 	// it is updated once ServeHTTP() routine found a request is finished
@@ -1143,6 +1145,10 @@ func (sc *serverConn) wroteFrame(res frameWriteResult) {
 		panic("internal error: expected to be already writing a frame")
 	}
 	sc.writingFrame = false
+	for _, v := range sc.pendingEncoderTableSizes {
+		sc.hpackEncoder.SetMaxDynamicTableSize(v)
+	}
+	sc.pendingEncoderTableSizes = sc.pendingEncoderTableSizes[:0]
 
 	wm := res.wm
 	st := wm.stream
@@ -1528,6 +1534,19 @@ func (sc *serverConn) processSettings(f *SettingsFrame) error {
 	return nil
 }
 
+// setEncoderTableSize applies the peer's SETTINGS_HEADER_TABLE_SIZE to the
+// HPACK encoder. While a frame write is in flight the encoder belongs to the
+// write goroutine (it may be in the middle of a header block), so the change
+// is kept until that write has finished (see wroteFrame).
+func (sc *serverConn) setEncoderTableSize(v uint32) {
+	sc.serveG.Check()
+	if sc.writingFrame {
+		sc.pendingEncoderTableSizes = append(sc.pendingEncoderTableSizes, v)
+		return
+	}
+	sc.hpackEncoder.SetMaxDynamicTableSize(v)
+}
+
 func (sc *serverConn) processSetting(s Setting) error {
 	sc.serveG.Check()
 	if err := s.Valid(); err != nil {
@@ -1538,7 +1557,7 @@ func (sc *serverConn) processSetting(s Setting) error {
 	switch s.ID {
 	case SettingHeaderTableSize:
 		sc.headerTableSize = s.Val
-		sc.hpackEncoder.SetMaxDynamicTableSize(s.Val)
+		sc.setEncoderTableSize(s.Val)
 	case SettingEnablePush:
 		sc.pushEnabled = s.Val != 0
 	case SettingMaxConcurrentStreams:
